@@ -170,6 +170,9 @@ class Inventory:
                 coll = origin_desc(strip(arg[2][0])) if arg[2] else None
                 if self.len_guard(cdescs, coll, 1):
                     return self.g(site, "guarded by a dominating length/emptiness test of %s" % coll)
+                why = self.param_len_guard(fn, arg[2][0], 1) if arg[2] else None
+                if why:
+                    return self.g(site, "%s is a parameter: %s" % (coll, why))
             # get(i).unwrap() with i < len guard
             # parse of a literal / known-good constant
             if arg[0] == "call" and short_callee(arg[1]) in ("parse_str", "parse", "from_str") and arg[2] and strip(arg[2][0])[0] == "s":
@@ -381,6 +384,39 @@ class Inventory:
                 if tk.isdigit() and int(tk) >= need:
                     return True
         return False
+
+    def param_len_guard(self, fn, coll_node, need, depth=0):
+        """the collection is a parameter of a private function and every call site passes a collection that is length-guarded there (>= need elements)"""
+        if depth > 2 or fn.raw.get("pub"):
+            return None
+        n = strip(coll_node)
+        while n[0] == "call" and short_callee(n[1]) in ("deref", "as_ref", "as_slice", "borrow", "iter", "as_deref", "clone") and n[2]:
+            n = strip(n[2][0])
+        if n[0] != "arg":
+            return None
+        root = self.prog.root_of(fn)
+        if root.id != fn.id:
+            return None
+        callers = []
+        for f2 in self.prog.fns.values():
+            for b, t in f2.body.calls():
+                c = callee_of(t)
+                if c and (c.get("rid") or c["id"]) == fn.id:
+                    callers.append((f2, b, t))
+        if not callers:
+            return None
+        for (f2, b, t) in callers:
+            sc2 = self.scope_for(f2)
+            actual = strip(sc2.operand(t["args"][n[1] - 1]))
+            while actual[0] == "call" and short_callee(actual[1]) in ("deref", "as_ref", "as_slice", "borrow", "as_deref") and actual[2]:
+                actual = strip(actual[2][0])
+            cd2 = [(strip(c_), tk) for (_, d, c_, tk) in sc2.conditions(b)]
+            if self.len_guard(cd2, origin_desc(actual), need):
+                continue
+            if self.param_len_guard(f2, actual, need, depth + 1):
+                continue
+            return None
+        return "every call site (%s) passes a collection under a dominating length test (>= %d)" % (", ".join(sorted({f2.path.split("::")[-1] for f2, _, _ in callers})), need)
 
     def param_const_nonzero(self, fn, argidx, depth):
         """all call sites of fn pass a non-zero integer constant (or their own such parameter) as argument argidx"""
